@@ -101,6 +101,10 @@ def _fault_points(self, ev, q):
                     self.violation({"oracle": "purity", "kind": "result-differs-after-fault", "op": ev["op"], "seed": self.st.seed.name, "at": at},
                                    {"event": ev, "fault_at_call": at, "clean": oracles.sstr(q), "after_fault": str(q2)})
                     return
+            except explore.TransitionTimeout:
+                # the harness deadline, not a verdict (slow composite operation on a loaded machine)
+                self.res["timeouts"] += 1
+                raise
             except Exception as ex:
                 self.violation({"oracle": "purity", "kind": "fails-after-fault", "op": ev["op"], "seed": self.st.seed.name, "at": at},
                                {"event": ev, "fault_at_call": at, "exc": repr(ex)[:300]})
